@@ -7,6 +7,7 @@ import (
 	"sync"
 
 	"github.com/lugu/qiloop/bus/net"
+	"github.com/lugu/qiloop/vhook"
 )
 
 // ErrServiceNotFound is returned with a message refers to an unknown
@@ -192,17 +193,20 @@ func (s *server) handle(stream net.Stream, authenticated bool) {
 	go func() {
 		for msg := range consumer {
 			err := firewall(msg, context)
+			vhook.Emit("server", context.endpoint, "fw", "id", msg.Header.ID, "type", msg.Header.Type, "service", msg.Header.Service, "object", msg.Header.Object, "action", msg.Header.Action, "ok", err == nil)
 			if err != nil {
 				log.Printf("missing authentication from %s: %#v",
 					context.EndPoint().String(), msg.Header)
 				context.SendError(msg, err)
 				stream.Close()
+				vhook.Emit("server", context.endpoint, "reject", "id", msg.Header.ID)
 				return
 			}
 			err = s.Router.Receive(msg, context)
 			if err != nil {
 				log.Printf("error %v: %s", msg.Header, err)
 			}
+			vhook.Emit("server", context.endpoint, "consumed", "id", msg.Header.ID)
 		}
 	}()
 	closer := func(err error) {
